@@ -109,13 +109,14 @@ def find_cycle(edges):
 
 
 class PanicChecker:
-    def __init__(self, chk, prog, rule="R-PANIC", allow=None, param_rng=None, exempt_macros=()):
+    def __init__(self, chk, prog, rule="R-PANIC", allow=None, param_rng=None, exempt_macros=(), seeds=None):
         self.chk = chk
         self.prog = prog
         self.eng = interval.Engine(prog)
         self.rule = rule
         self.allow = allow or {}
         self.param_rng = param_rng or {}
+        self.seeds = seeds or {}     # {fn path: {term: range}} stated input domains
         self.counts = {"functions": 0, "asserts": 0, "calls": 0, "partial": 0, "alloc": 0, "panic_calls": 0}
         self.unclassified = set()
 
@@ -125,6 +126,8 @@ class PanicChecker:
         for m in missing:
             self.chk.blind(self.rule, m, "entry point not found (renamed or removed)")
         for p in fns:
+            if getattr(self, "only", None) and p not in self.only:
+                continue
             self.check_fn(p)
         self.chk.notes.setdefault("panic_scopes", {})[label] = {"entries": len(entries), "functions": len(fns), **self.counts}
         for u in sorted(self.unclassified):
@@ -135,7 +138,7 @@ class PanicChecker:
         fn = self.prog.fn(path)
         self.counts["functions"] += 1
         try:
-            an = self.eng.analysis(path, self.param_rng.get(path))
+            an = self.eng.analysis(path, self.param_rng.get(path), self.seeds.get(path))
         except RuntimeError as e:
             self.chk.blind(self.rule, path, "interval analysis failed: %s" % e)
             return
@@ -161,6 +164,21 @@ class PanicChecker:
                 name = callee_of(t)
                 decl = t.get("callee") or name
                 if name in self.prog.fns or decl in self.prog.fns:
+                    tgt = name if name in self.prog.fns else decl
+                    if tgt in getattr(self, "ctx_callees", ()):
+                        # context-sensitive check of a small callee: its obligations under this call site's argument ranges
+                        args = [an.operand(st, a) for a in t["args"]]
+                        pr = {i + 1: an.range_of(st, a) for i, a in enumerate(args)}
+                        pr = {k: v for k, v in pr.items() if v != (-INF, INF)}
+                        sub = PanicChecker(_Collector(), self.prog, rule=self.rule)
+                        sub.eng = self.eng
+                        sub.param_rng = {tgt: pr}
+                        sub.check_fn(tgt)
+                        n = sum(1 for k2 in seen_sites if k2.startswith("ctx:" + tgt))
+                        seen_sites["ctx:%s#%d" % (tgt, n)] = 1
+                        bad = [o for o in sub.chk.obs if not o[0]]
+                        self.ob(path, not bad, "call of %s with arguments in %s: %s" % (tgt.split("::")[-2] + "::" + tgt.split("::")[-1], pr,
+                                "its assertions hold" if not bad else bad[0][1]), where, "ctx:%s#%d" % (tgt, n))
                     return
                 if name == "<indirect>":
                     return
@@ -203,6 +221,19 @@ class PanicChecker:
             self.chk.ob(rule or self.rule, path, True, "allow-table: %s (%s)" % (self.allow[full], detail), where, key=key)
             return
         self.chk.ob(rule or self.rule, path, okk, detail, where, key=key)
+
+
+class _Collector:
+    """minimal stand-in for report.Check used for context-sensitive sub-checks"""
+    def __init__(self):
+        self.obs = []
+        self.notes = {}
+
+    def ob(self, rule, anchor, ok, detail="", where=None, key=None):
+        self.obs.append((ok, detail))
+
+    def blind(self, *a, **k):
+        self.obs.append((False, "undecided"))
 
 
 def describe_assert(an, st, t):
@@ -400,6 +431,8 @@ PRE = {"slice_index": pre_slice_index, "str_index": pre_str_index, "copy_from_sl
        "vec_index": pre_vec_index}
 
 
-def check_no_panic(chk, prog, entries, label, allow=None, param_rng=None, rule="R-PANIC"):
-    pc = PanicChecker(chk, prog, rule=rule, allow=allow, param_rng=param_rng)
+def check_no_panic(chk, prog, entries, label, allow=None, param_rng=None, rule="R-PANIC", seeds=None, only=None, ctx_callees=()):
+    pc = PanicChecker(chk, prog, rule=rule, allow=allow, param_rng=param_rng, seeds=seeds)
+    pc.only = only
+    pc.ctx_callees = set(ctx_callees)
     return pc.run(entries, label)
